@@ -68,9 +68,9 @@ type Universe struct {
 }
 
 var (
-	sortInt  = &Sort{Kind: KInt, Name: "Int", Signed: true}
-	sortBool = &Sort{Kind: KBool, Name: "Bool"}
-	sortStr  = &Sort{Kind: KStr, Name: "Str"}
+	sortInt  = &Sort{Kind: KInt, Name: "Int", Signed: true, GoT: types.Typ[types.Int]}
+	sortBool = &Sort{Kind: KBool, Name: "Bool", GoT: types.Typ[types.Bool]}
+	sortStr  = &Sort{Kind: KStr, Name: "Str", GoT: types.Typ[types.String]}
 	sortAny  = &Sort{Kind: KAny, Name: "Any"}
 	sortFunc = &Sort{Kind: KFunc, Name: "Int"}
 )
@@ -285,6 +285,7 @@ func (u *Universe) sortOf(t types.Type) *Sort {
 		s = u.sliceSort(el)
 		cp := *s
 		cp.GoT = t
+		cp.Elem = el // keep the precise element sort (pointee information) although the SMT datatype is shared
 		s = &cp
 	case *types.Array:
 		el := u.sortOf(tt.Elem())
